@@ -9,6 +9,7 @@ import time
 from concurrent.futures import ThreadPoolExecutor
 
 import common
+from common import prune_cache as common_prune
 from common import CACHE, MachineryError, NCPU, WORK, printed, run_tlc, spec_hash, tlc_error_excerpt
 
 
@@ -24,6 +25,7 @@ def cases(level):
     key = spec_hash("Prim.tla", "Laws.tla", "Real.java") + f"-{level}"
     CACHE.mkdir(exist_ok=True)
     p = CACHE / f"prim-{key}.ndjson"
+    common_prune("prim", key)
     if p.exists():
         return [json.loads(l) for l in p.open()]
     res = run_tlc("Prim.tla", cfg=cfg("gen", level), env={"TRACE_FILE": ""}, workers=1, heap="6g", tag=key, extra=[])
